@@ -10,7 +10,7 @@ use std::time::Instant;
 // RNG (xoshiro256** seeded through splitmix64)
 // ---------------------------------------------------------------------------------------------
 
-#[derive(Clone, Debug)]
+#[derive(Clone, Debug, serde::Serialize, serde::Deserialize)]
 pub struct Rng {
     s: [u64; 4],
 }
